@@ -309,10 +309,18 @@ def rule_ovf(env, shared):
         for w in env.worlds():
             if w["iter"] == sa or w["puller"] == sa:
                 world = w
+        # arithmetic in the methods of the iterator types themselves (implementors, pullers, chunk iterators, views) is
+        # part of the public behaviour: undischarged sites there are reported; only unrelated helpers stay "undecided"
+        root = env.F.bodies.get(b.root, b) if b.is_closure else b
+        rsa = env.F.impl_self_adt(root)
+        pullers = {r.get("puller") for r in env.R.impl.values()}
+        anchored = rsa is not None and (rsa in env.R.impl or rsa in pullers or rsa in env.view_adts()
+                                        or any(rsa == (l["ty"].get("adt") or "") for bb2 in env.F.non_test_bodies()
+                                               if env.F.impl_self_adt(bb2) in pullers for l in bb2.locals[:1]))
         for e in env.flat_events(b, sa, world):
             if e.body.def_ in covered and e.body is not b:
                 continue
-            site(e, None, b, False)
+            site(e, None, b, anchored)
     return list(out.values())
 
 
